@@ -305,4 +305,214 @@ Proof. apply emb_ids, F_emb. Qed.
 Theorem F_NoDup f : NoDup (ids f) -> NoDup (ids (F v f)).
 Proof. intros H. eapply sublist_NoDup; [apply F_order|exact H]. Qed.
 
+(* ------------------------------------------------------------------ *)
+(* the copying form: F plus the D24 leaves, modulo node identity        *)
+Lemma copy_go l : forall nx,
+  (fix go (l : list rt) (nx : nat) {struct l} : list rt * nat :=
+     match l with
+     | [] => ([], nx)
+     | x :: xs => let a := copy_t x nx in
+                  let b := go xs (snd a) in
+                  (fst a :: fst b, snd b)
+     end) l nx = copy_f l nx.
+Proof. induction l as [|x l IH]; intros nx; [reflexivity|]. cbn [copy_f]. rewrite IH. reflexivity. Qed.
+
+Lemma copy_t_unfold id i ch nx :
+  copy_t (T id i ch) nx = (T nx i (fst (copy_f ch (S nx))), snd (copy_f ch (S nx))).
+Proof. cbn [copy_t]. rewrite copy_go. reflexivity. Qed.
+
+Lemma copy_f_cons x xs nx :
+  copy_f (x :: xs) nx = (fst (copy_t x nx) :: fst (copy_f xs (snd (copy_t x nx))), snd (copy_f xs (snd (copy_t x nx)))).
+Proof. reflexivity. Qed.
+
+Lemma copy_f_erase_of l : Forall (fun t => forall nx, erase (fst (copy_t t nx)) = erase t) l ->
+  forall nx, map erase (fst (copy_f l nx)) = map erase l.
+Proof.
+  induction 1 as [|x l Hx _ IH]; intros nx; [reflexivity|].
+  rewrite copy_f_cons. cbn [fst map]. rewrite Hx, IH. reflexivity.
+Qed.
+
+Lemma copy_t_erase : forall t nx, erase (fst (copy_t t nx)) = erase t.
+Proof.
+  induction t as [id i ch IH] using rt_ind'. intros nx. rewrite copy_t_unfold. cbn [fst erase].
+  rewrite (copy_f_erase_of ch IH). reflexivity.
+Qed.
+
+Lemma copy_f_erase l nx : map erase (fst (copy_f l nx)) = map erase l.
+Proof. apply copy_f_erase_of. apply Forall_forall. intros t _. apply copy_t_erase. Qed.
+
+Definition is_ex (fr : frame) : Prop := match fr with Existing _ _ _ => True | Virtual _ => False end.
+Definition all_ex (stk : list frame) : Prop := Forall is_ex stk.
+
+Lemma mat_all_ex stk : all_ex stk -> forall nx, materialise stk nx = (stk, nx).
+Proof.
+  induction 1 as [|fr stk Hfr _ IH]; intros nx; cbn [materialise]; [reflexivity|].
+  rewrite IH. destruct fr; [reflexivity|destruct Hfr].
+Qed.
+
+Lemma mat_is_ex stk nx : all_ex (fst (materialise stk nx)).
+Proof.
+  induction stk as [|fr stk IH]; cbn [materialise]; [constructor|].
+  destruct fr; cbn [fst]; constructor; try exact IH; exact Logic.I.
+Qed.
+
+Lemma mat_virtual src stk nx :
+  materialise (Virtual src :: stk) nx =
+  (Existing (snd (materialise stk nx)) (rinfo src) [] :: fst (materialise stk nx), S (snd (materialise stk nx))).
+Proof. reflexivity. Qed.
+
+Lemma add_top_ex c stk : all_ex stk -> all_ex (add_top c stk).
+Proof.
+  destruct stk as [|[id i rc|src] below]; cbn [add_top]; intros H; try exact H.
+  inversion H; subst. constructor; [exact Logic.I|assumption].
+Qed.
+
+Lemma add_tops_ex cs : forall id i rc below,
+  add_tops cs (Existing id i rc :: below) = Existing id i (rev cs ++ rc) :: below.
+Proof.
+  unfold add_tops. induction cs as [|c cs IH]; intros id i rc below; cbn [fold_left add_top rev]; [reflexivity|].
+  rewrite IH. rewrite <- app_assoc. reflexivity.
+Qed.
+
+Lemma add_tops_cons c cs stk : add_tops (c :: cs) stk = add_tops cs (add_top c stk).
+Proof. reflexivity. Qed.
+
+Lemma af_go l : forall st,
+  (fix go (l : list rt) (st : afst) {struct l} : afst :=
+     match l with
+     | [] => st
+     | x :: xs => go xs (af_node v x st)
+     end) l st = af_children v l st.
+Proof. induction l as [|x l IH]; intros st; [reflexivity|]. cbn [af_children]. rewrite IH. reflexivity. Qed.
+
+Lemma af_node_unfold id i ch stk nx s :
+  af_node v (T id i ch) (stk, nx, s) =
+  if s then (stk, nx, s) else
+  let stk1 := Virtual (T id i ch) :: stk in
+  match v id with
+  | VSkipKeepSelf =>
+      let m := materialise stk1 nx in
+      (pop (add_top (T (snd m) i []) (fst m)), S (snd m), false)
+  | VStop => (pop stk1, nx, true)
+  | VSelect =>
+      let m := materialise stk1 nx in
+      let c := copy_f ch (snd m) in
+      (pop (add_tops (fst c) (fst m)), snd c, false)
+  | VFalse =>
+      let r := af_children v ch (stk1, nx, false) in
+      (pop (fst (fst r)), snd (fst r), snd r)
+  | VTrue =>
+      let m := materialise stk1 nx in
+      let r := af_children v ch (add_top (T (snd m) i []) (fst m), S (snd m), false) in
+      (pop (fst (fst r)), snd (fst r), snd r)
+  | VSkip => (pop stk1, nx, false)
+  end.
+Proof.
+  cbn [af_node fst snd]. destruct s; [reflexivity|].
+  destruct (v id); try reflexivity; rewrite af_go; reflexivity.
+Qed.
+
+(* what one call of the loop body does to the open spine: nothing, or it
+   materialises the pending parents and hangs one finished branch below the
+   innermost of them *)
+Definition af_ok (t : rt) : Prop := forall stk nx s, exists c' nx',
+  af_node v t (stk, nx, s) =
+    (match c' with None => stk | Some c => add_top c (fst (materialise stk nx)) end, nx', snd (F_t v s t))
+  /\ option_map erase c' = option_map (fun x => erase (dbl_t v x)) (fst (F_t v s t))
+  /\ (c' = None -> nx' = nx).
+
+Lemma af_children_ok l : Forall af_ok l -> forall stk nx s, exists cs' nx',
+  af_children v l (stk, nx, s) =
+    (match cs' with [] => stk | _ => add_tops cs' (fst (materialise stk nx)) end, nx', snd (F_f v s l))
+  /\ map erase cs' = map (fun x => erase (dbl_t v x)) (fst (F_f v s l))
+  /\ (cs' = [] -> nx' = nx).
+Proof.
+  induction 1 as [|x l Hx _ IH]; intros stk nx s.
+  - exists [], nx. cbn. auto.
+  - cbn [af_children]. destruct (Hx stk nx s) as [c' [nx1 [E1 [E2 E3]]]]. rewrite E1.
+    rewrite F_f_cons. cbn [fst snd].
+    destruct c' as [c|].
+    + destruct (fst (F_t v s x)) as [x0|]; [|discriminate E2]. cbn [option_map] in E2. injection E2 as E2.
+      set (M := fst (materialise stk nx)).
+      assert (HM : all_ex (add_top c M)) by (apply add_top_ex, mat_is_ex).
+      destruct (IH (add_top c M) nx1 (snd (F_t v s x))) as [cs' [nx2 [I1 [I2 I3]]]].
+      exists (c :: cs'), nx2. rewrite I1. refine (conj _ (conj _ _)).
+      * rewrite (mat_all_ex _ HM). cbn [fst]. rewrite add_tops_cons. destruct cs'; reflexivity.
+      * cbn [ocons map]. rewrite E2, I2. reflexivity.
+      * discriminate.
+    + destruct (fst (F_t v s x)) as [x0|]; [discriminate E2|]. rewrite (E3 eq_refl).
+      destruct (IH stk nx (snd (F_t v s x))) as [cs' [nx2 [I1 [I2 I3]]]].
+      exists cs', nx2. rewrite I1. cbn [ocons]. auto.
+Qed.
+
+Lemma match_add_tops cs S0 nx : all_ex S0 ->
+  match cs with [] => S0 | _ => add_tops cs (fst (materialise S0 nx)) end = add_tops cs S0.
+Proof. intros H. rewrite (mat_all_ex _ H). destruct cs; reflexivity. Qed.
+
+Lemma af_node_ok : forall t, af_ok t.
+Proof.
+  induction t as [id i ch IH] using rt_ind'. intros stk nx s.
+  rewrite af_node_unfold, F_t_unfold. destruct s.
+  { exists None, nx. cbn. auto. }
+  cbv zeta. rewrite mat_virtual. cbn [fst snd rinfo].
+  pose proof (mat_is_ex stk nx) as HM.
+  destruct (materialise stk nx) as [M k] eqn:Em. cbn [fst snd] in *.
+  destruct (v id) eqn:Ev.
+  - (* True *)
+    cbn [add_top].
+    assert (H0 : all_ex (Existing k i [T (S k) i []] :: M)) by (constructor; [exact Logic.I|exact HM]).
+    destruct (af_children_ok ch IH (Existing k i [T (S k) i []] :: M) (S (S k)) false) as [cs' [nx' [E1 [E2 _]]]].
+    rewrite E1. cbn [fst snd]. rewrite (match_add_tops _ _ _ H0), add_tops_ex. cbn [pop].
+    exists (Some (T k i (T (S k) i [] :: cs'))), nx'. refine (conj _ (conj _ _)).
+    + rewrite rev_app_distr, rev_involutive. reflexivity.
+    + cbn [option_map erase dbl_t map]. rewrite Ev. cbn [erase map]. rewrite E2, map_map. reflexivity.
+    + discriminate.
+  - (* False *)
+    destruct (af_children_ok ch IH (Virtual (T id i ch) :: stk) nx false) as [cs' [nx' [E1 [E2 E3]]]].
+    rewrite E1. cbn [fst snd]. destruct cs' as [|c cs'].
+    + exists None, nx'. cbn [pop].
+      destruct (fst (F_f v false ch)); [|discriminate E2]. cbn. auto.
+    + rewrite mat_virtual, Em. cbn [fst snd rinfo]. rewrite add_tops_ex. cbn [pop].
+      exists (Some (T k i (c :: cs'))), nx'.
+      destruct (fst (F_f v false ch)) as [|y ys] eqn:Ek; [discriminate E2|]. cbn [is_nil fst].
+      refine (conj _ (conj _ _)).
+      * rewrite app_nil_r, rev_involutive. reflexivity.
+      * cbn [option_map erase dbl_t]. rewrite Ev. cbn [erase]. rewrite E2, map_map. reflexivity.
+      * discriminate.
+  - (* Skip *)
+    exists None, nx. cbn. auto.
+  - (* SkipBranch(and_self=False) *)
+    cbn [add_top pop rev].
+    exists (Some (T k i [T (S k) i []])), (S (S k)). refine (conj eq_refl (conj _ _)); [|discriminate].
+    cbn [option_map erase dbl_t map fst]. rewrite Ev. reflexivity.
+  - (* SelectBranch *)
+    rewrite add_tops_ex. cbn [pop].
+    exists (Some (T k i (fst (copy_f ch (S k))))), (snd (copy_f ch (S k))). refine (conj _ (conj _ _)); [| |discriminate].
+    + rewrite app_nil_r, rev_involutive. reflexivity.
+    + cbn [option_map erase dbl_t fst]. rewrite Ev. cbn [erase]. rewrite copy_f_erase. reflexivity.
+  - (* Stop *)
+    exists None, nx. cbn. auto.
+Qed.
+
+Theorem add_filtered_is_dbl_F f nx : same_modulo_ids (fst (add_filtered v f nx)) (dbl v (F v f)).
+Proof.
+  unfold same_modulo_ids, add_filtered, dbl, F.
+  assert (H : Forall af_ok f) by (apply Forall_forall; intros t _; apply af_node_ok).
+  set (root := Existing 0 (I 0 0 0 false [] (DInt 0) None []) []).
+  assert (H0 : all_ex [root]) by (constructor; [exact Logic.I|constructor]).
+  destruct (af_children_ok f H [root] nx false) as [cs' [nx' [E1 [E2 _]]]].
+  rewrite E1. cbn [fst snd]. rewrite (match_add_tops _ _ _ H0). unfold root. rewrite add_tops_ex.
+  cbn [fst]. rewrite app_nil_r, rev_involutive, map_map. exact E2.
+Qed.
+
+Theorem filtered_is_dbl_F f : same_modulo_ids (filtered v f) (dbl v (F v f)).
+Proof. apply add_filtered_is_dbl_F. Qed.
+
+(* the stop flag of the copying scan is F's *)
+Lemma af_children_stop f stk nx s : snd (af_children v f (stk, nx, s)) = snd (F_f v s f).
+Proof.
+  assert (H : Forall af_ok f) by (apply Forall_forall; intros t _; apply af_node_ok).
+  destruct (af_children_ok f H stk nx s) as [cs' [nx' [E1 _]]]. rewrite E1. reflexivity.
+Qed.
+
 End P.
